@@ -22,8 +22,18 @@ import (
 
 const RepoDir = "/repo"
 const PkgDir = "/repo/jsonschema"
-const OverlaySrc = "/verif/overlay/zz_verif_export.go"
 const OverlayDst = "/repo/jsonschema/zz_verif_export.go"
+
+// VerifDir is the root of the verification tree (bin/check exports VERIF_ROOT so that a
+// snapshot elsewhere uses its own files).
+var VerifDir = func() string {
+	if d := os.Getenv("VERIF_ROOT"); d != "" {
+		return d
+	}
+	return "/verif"
+}()
+
+var OverlaySrc = VerifDir + "/overlay/zz_verif_export.go"
 
 var (
 	progOnce sync.Once
